@@ -35,8 +35,10 @@ var (
 // makeCert returns a self-signed certificate whose CommonName is cn and whose serial is `serial`.
 // Serial 0 cannot be produced by x509.CreateCertificate, so it is made by patching the DER of a
 // serial-1 certificate (the chain never verifies the signature, so this is what an attacker would do too).
-func makeCert(cn string, serial *big.Int) testCert {
-	key := cn + "/" + serial.String()
+func makeCert(cn string, serial *big.Int) testCert { return makeCertKeyed(cn, serial, "") }
+
+func makeCertKeyed(cn string, serial *big.Int, variant string) testCert {
+	key := cn + "/" + serial.String() + "#" + variant
 	certMu.Lock()
 	defer certMu.Unlock()
 	if c, ok := certCache[key]; ok {
@@ -108,5 +110,23 @@ func aRevokeCert(owner string, serial *big.Int) Action {
 	return Action{Name: fmt.Sprintf("RevokeCert(%s,serial=%s)", owner, serial), Kind: "RevokeCertificate", Signer: owner, Tag: tag("owner", owner, "serial", serial.String()),
 		Msg: func(c *Cast) sdk.Msg {
 			return &ctypes.MsgRevokeCertificate{ID: ctypes.CertificateID{Owner: c.S(owner), Serial: serial.String()}}
+		}}
+}
+
+// aCreateCertAlt: a DIFFERENT certificate (new key pair) carrying the same common name and serial.
+func aCreateCertAlt(owner string, serial *big.Int) Action {
+	return Action{Name: fmt.Sprintf("CreateCert(%s,serial=%s,other-key)", owner, serial), Kind: "CreateCertificate", Signer: owner, Tag: tag("owner", owner, "cn", owner, "serial", serial.String()),
+		Msg: func(c *Cast) sdk.Msg {
+			tc := makeCertKeyed(c.S(owner), serial, "alt")
+			return &ctypes.MsgCreateCertificate{Owner: c.S(owner), Cert: tc.CertPEM, Pubkey: tc.PubPEM}
+		}}
+}
+
+// aRevokeCertSpelled: revoke naming the serial with a non-canonical decimal spelling (e.g. "010" = 10).
+func aRevokeCertSpelled(owner string, spelling string) Action {
+	ser, _ := new(big.Int).SetString(spelling, 10)
+	return Action{Name: fmt.Sprintf("RevokeCert(%s,serial=%q)", owner, spelling), Kind: "RevokeCertificate", Signer: owner, Tag: tag("owner", owner, "serial", ser.String()),
+		Msg: func(c *Cast) sdk.Msg {
+			return &ctypes.MsgRevokeCertificate{ID: ctypes.CertificateID{Owner: c.S(owner), Serial: spelling}}
 		}}
 }
